@@ -21,4 +21,15 @@ theorem handshake_timeout_positive_seconds :
     0 < p2p_HandshakeTimeout / 1000000000 ∧ p2p_HandshakeTimeout / 1000000000 < 2 ^ 53 ∧
     p2p_HandshakeTimeout % 1000000000 = 0 := by decide
 
+/-- **The caller's unit conversion.**  `AuthenticateAs` takes its timeout in *seconds*; the one
+    place where a fresh handshake is authenticated, `p2p/peer.go: authenticateNeighbor`, must hand it
+    `HandshakeTimeout` (a `time.Duration`, nanoseconds) divided by `time.Second` — exactly one call,
+    with the node's own id as recipient and the received payload.  Together with
+    `handshake_timeout_positive_seconds` the skew window at the real entry point is the 10 s of
+    the constant, not 10 000 (milliseconds) or 10^10 (raw duration). -/
+theorem handshake_passes_seconds :
+    p2p_Peer_authenticateNeighbor_args.filter (·.1 == "AuthenticateAs") =
+      [("AuthenticateAs", ["me.IdForNetwork", "msg.Data", "int64(HandshakeTimeout/time.Second)"])] := by
+  decide
+
 end Mixin.Facts.ExpectedC30
